@@ -14,6 +14,7 @@ pub struct Stream<F> {
     minialloc: Weak<RwLock<MiniAllocator<F>>>,
     stream_id: u32,
     total_len: u64,
+    max_len: u64,
     buffer: StreamBuffer,
     buf_offset_from_start: u64,
     flusher: Option<Box<dyn Flusher<F>>>,
@@ -25,12 +26,18 @@ impl<F> Stream<F> {
         stream_id: u32,
         max_buffer_size: usize,
     ) -> Stream<F> {
-        let total_len =
-            minialloc.read().unwrap().dir_entry(stream_id).stream_len;
+        let (total_len, max_len) = {
+            let minialloc = minialloc.read().unwrap();
+            (
+                minialloc.dir_entry(stream_id).stream_len,
+                max_stream_len(&minialloc),
+            )
+        };
         Stream {
             minialloc: Arc::downgrade(minialloc),
             stream_id,
             total_len,
+            max_len,
             buffer: StreamBuffer::new(max_buffer_size),
             buf_offset_from_start: 0,
             flusher: None,
@@ -102,6 +109,14 @@ impl<F: Read + Write + Seek> Stream<F> {
     /// case the position becomes the new end of the stream.
     pub fn set_len(&mut self, size: u64) -> io::Result<()> {
         if size != self.total_len {
+            // Refuse before anything is written back.
+            if size > self.max_len {
+                invalid_input!(
+                    "Cannot resize stream to {} bytes (the maximum is {} bytes)",
+                    size,
+                    self.max_len
+                );
+            }
             let new_position = self.current_position().min(size);
             self.flush_changes()?;
             let minialloc = self.minialloc()?;
@@ -461,6 +476,12 @@ fn zero_old_tail<C: Write + Seek>(
     Ok(())
 }
 
+/// A chain cannot have more sectors than there are regular sector IDs.
+fn max_stream_len<F>(minialloc: &MiniAllocator<F>) -> u64 {
+    consts::MAX_REGULAR_SECTOR as u64
+        * minialloc.version().sector_len() as u64
+}
+
 /// If `new_stream_len` is less than the stream's current length, then the
 /// stream will be truncated.  If it is greater than the stream's current size,
 /// then the stream will be padded with zero bytes.
@@ -471,9 +492,7 @@ fn resize_stream<F: Read + Write + Seek>(
 ) -> io::Result<()> {
     let (old_start_sector, old_stream_len) =
         stream_location(minialloc, stream_id)?;
-    // A chain cannot have more sectors than there are regular sector IDs.
-    let max_stream_len = consts::MAX_REGULAR_SECTOR as u64
-        * minialloc.version().sector_len() as u64;
+    let max_stream_len = max_stream_len(minialloc);
     if new_stream_len > max_stream_len {
         invalid_input!(
             "Cannot resize stream to {} bytes (the maximum is {} bytes)",
